@@ -461,3 +461,52 @@ package core
 //@   ensures! timestamp: len(s) == 10 ==> typeis(r, "SuTimestamp") && unbox(r, "SuTimestamp").SuDate.date == dec32(s, 1) && unbox(r, "SuTimestamp").SuDate.time == dec32(s, 5) && unbox(r, "SuTimestamp").extra == s[9]
 // big endian: the four bytes written for n decode back to n, and byte order is numeric order (util/pack lemmas uint32_roundtrip, uint32_order)
 //@ lemma! date_bytes_roundtrip(n uint32): ((n >> 24) % 256) * 16777216 + ((n >> 16) % 256) * 65536 + ((n >> 8) % 256) * 256 + n % 256 == n
+
+//@ property C42
+// ---- transaction objects: how a transaction ends -------------------------------------------------
+// status: 0 active, 1 completed, 2 aborted. gCompletes/gRollbacks count the calls of Complete and
+// Rollback made directly (calls made inside a block are behind Thread.Call and do not count).
+//@ ghost var gCompletes int
+//@ ghost var gRollbacks int
+//@ ghost var gTran *SuTran
+// (the effect of the underlying database transaction on the database is outside this model)
+//@ func (t ITran) Complete() (r)
+//@   assumed
+//@   pure
+//@ func (t ITran) Abort() (r)
+//@   assumed
+//@   pure
+// gTran: the transaction object created by the last NewSuTran (a modelling device: the ghost is bound here)
+//@ func NewSuTran(itran, updatable) (r)
+//@   assumed
+//@   modifies gTran
+//@   ensures r != nil && fresh(r) && r.status == 0 && gTran == r
+//@ func (st *SuTran) Ended() (r)
+//@   requires st != nil
+//@   ensures! r <==> st.status != 0
+//@ func (st *SuTran) Complete()
+//@   nosafety
+//@   requires st != nil
+//@   modifies st.status, gCompletes
+//@   ensures! completed: st.status == 1
+//@   on_panic aborted: st.status == 2
+//@ func (st *SuTran) Rollback()
+//@   nosafety
+//@   requires st != nil
+//@   modifies st.status, gRollbacks
+//@   ensures! aborted: st.status == 2
+//@   on_panic ended: st.status != 0
+//@ func (th *Thread) Call(fn, args) (r)
+//@   assumed
+//@   maypanic
+//@   modifies all
+//@ func ToBool(x) (r)
+//@   assumed
+//@   pure
+//@   maypanic
+//@ func (th *Thread) Dbms() (r)
+//@   assumed
+//@   pure
+//@ func (d IDbms) Transaction(update) (r)
+//@   assumed
+//@   pure
